@@ -214,6 +214,7 @@ def stage_may_blocking():
     insert_before('src/park.rs', 'yield_now();', L('park.wait_kernel'), count=1)
     insert_before('src/park.rs', 'yield_now();', L('park.drop.wait_kernel'), count=1, skip=2)
     insert_before('src/scheduler.rs', 'if let Some(mut co) = c.take() {', L('timer.handler.take', 'Arc::as_ptr(&c) as usize'))
+    insert_after('src/scheduler.rs', 'if let Some(mut co) = c.take() {', L('timer.handler.resumed', 'Arc::as_ptr(&c) as usize'))
     insert_after('src/sync/spsc.rs', 'wait_co.store(Blocker::new_coroutine(co));', L('spsc.subscribe.stored'))
     insert_before('src/sync/spsc.rs', 'self.channels.store(0, Ordering::Relaxed);', L('spsc.drop_chan'))
     insert_before('src/io/sys/unix/mod.rs', 'let event_data = unsafe { &mut *data.event_data };', L('io.timeout_handler.live'))
